@@ -71,7 +71,7 @@ pub fn plan_store(rng: &mut Rng, deep: bool) -> (usize, Vec<Profile>, &'static s
         }
         1 => {
             let bs = *rng.pick(&[16usize, 64, 100, 256, 1024]);
-            let n = rng.urange(100, if deep { 6000 } else { 1500 });
+            let n = rng.urange(100, if deep { 4000 } else { 1500 });
             let p = (0..n)
                 .map(|_| if rng.chance(1, 10) { Profile::Empty } else { Profile::Tiny })
                 .collect();
